@@ -362,10 +362,11 @@ def circOp (s : Sess) (w : List String) : Option (Sess × String) :=
       | .error e => pure (s, encErr e)
   | [id, "copy", id2] => do let c ← s.getC id; pure (s.setC id2 c, "ok")
   | [id, "compile"] => do
+      -- the object after the call (also when the call raised) and the outcome: `Circ.compileSt`
       let c ← s.getC id
-      match c.compile with
-      | .ok c' => pure (s.setC id c', "ok")
-      | .error e => pure (s, encErr e)
+      match c.compileSt with
+      | (c', .ok ()) => pure (s.setC id c', "ok")
+      | (c', .error e) => pure (s.setC id c', encErr e)
   | [id, "compilelayers"] => do
       let c ← s.getC id
       match c.compileLayersOnly with
